@@ -239,6 +239,37 @@ func (e *httpEnv) run(raw json.RawMessage) (HTTPOut, error) {
 	return out, nil
 }
 
+// directedRequests: requests that make progress before they fail — a valid element / posting /
+// statement first, then the invalid one — so that "no effect" is not vacuous: the work already
+// done must be rolled back and its events dropped.
+func directedRequests() []json.RawMessage {
+	mk := func(name, route, method, path, query, body string) json.RawMessage {
+		b, _ := json.Marshal(map[string]any{"route": route, "method": method, "path": path, "query": query, "body": body,
+			"headers": map[string]string{"Content-Type": "application/json"}, "mut": "directed:" + name, "expect": "4xx"})
+		return b
+	}
+	okTx := `{"action":"CREATE_TRANSACTION","data":{"postings":[{"source":"world","destination":"bank","amount":5,"asset":"USD/2"}],"metadata":{"d":"1"}}}`
+	okMeta := `{"action":"ADD_METADATA","data":{"targetType":"ACCOUNT","targetId":"users:001","metadata":{"directed":"x"}}}`
+	poor := `{"action":"CREATE_TRANSACTION","data":{"postings":[{"source":"users:002","destination":"bank","amount":999999,"asset":"USD/2"}]}}`
+	var ret []json.RawMessage
+	for _, l := range []string{"l1", "my-ledger_2"} {
+		bulk := "v2 POST /{ledger}/_bulk"
+		ret = append(ret,
+			mk("atomic-bulk:ok+insufficient-funds", bulk, "POST", "/v2/"+l+"/_bulk", "atomic=true", "["+okTx+","+okMeta+","+poor+"]"),
+			mk("atomic-bulk:ok+unknown-action", bulk, "POST", "/v2/"+l+"/_bulk", "atomic=true", "["+okTx+`,{"action":"NOPE","data":{}}]`),
+			mk("atomic-bulk:ok+bad-target", bulk, "POST", "/v2/"+l+"/_bulk", "atomic=1", "["+okMeta+`,{"action":"ADD_METADATA","data":{"targetType":"TRANSACTION","targetId":"abc","metadata":{}}}]`),
+			mk("atomic-bulk:ok+missing-tx", bulk, "POST", "/v2/"+l+"/_bulk", "atomic=true", "["+okTx+`,{"action":"REVERT_TRANSACTION","data":{"id":99999}}]`),
+			mk("script:send+insufficient", "v2 POST /{ledger}/transactions", "POST", "/v2/"+l+"/transactions", "",
+				`{"script":{"plain":"send [USD/2 1] (\n source = @world\n destination = @bank\n)\nsend [USD/2 999999] (\n source = @users:002\n destination = @bank\n)"}}`),
+			mk("postings:ok+overdraft", "v2 POST /{ledger}/transactions", "POST", "/v2/"+l+"/transactions", "",
+				`{"postings":[{"source":"world","destination":"bank","amount":1,"asset":"EUR"},{"source":"users:002","destination":"bank","amount":999999,"asset":"EUR"}]}`),
+			mk("v1-batch:ok+overdraft", "v1 POST /{ledger}/transactions/batch", "POST", "/"+l+"/transactions/batch", "",
+				`{"transactions":[{"postings":[{"source":"world","destination":"bank","amount":1,"asset":"EUR"}]},{"postings":[{"source":"users:002","destination":"bank","amount":999999,"asset":"EUR"}]}]}`),
+		)
+	}
+	return ret
+}
+
 func init() {
 	gen.Register("httpe2e", func(c *gen.Ctx) error {
 		defer func() {
@@ -251,7 +282,13 @@ func init() {
 			if c.Replay != "" {
 				return c.ReplayInputs("httpe2e")
 			}
-			return drawBatch(c, "http", c.N)
+			ins, err := drawBatch(c, "http", c.N)
+			if err != nil {
+				return nil, err
+			}
+			// the directed requests run twice: on the fresh ledgers and after the mutated traffic
+			all := append(directedRequests(), ins...)
+			return append(all, directedRequests()...), nil
 		}()
 		if err != nil {
 			return err
